@@ -86,3 +86,8 @@ func Num7(b []byte, v uint64, base int) []byte {
 	return b
 }
 func Zero7(i int) (byte, int) { return zeros[i], len(zeros) }
+
+// AsString is listed in TransSpec.Identity (a conversion between the two byte-string types): its body is not translated.
+func AsString[T StrOrBytes](s T) string { return string(s) }
+func CountAny[T StrOrBytes](s T) int    { return utf8.RuneCountInString(AsString(s)) }
+func CountBytes7(s []byte) int          { return CountAny(s) }
